@@ -84,7 +84,7 @@ def run(ctx, replay=None):
            "FileFollowsMemory Atomic\nCHECK_DEADLOCK FALSE\n" % (3 if ctx.quick else 4), name="L1-MCCred")
     out = ctx.sub("drv")
     r = go_test(ctx, "credfam", "TestDrive", {"VH_OUT": out, "VH_SEED": ctx.seed, "VH_COUNT": 300 if ctx.quick else 6000,
-                                             "VH_CONC": 150 if ctx.quick else 3000}, timeout=3000)
+                                             "VH_CONC": 400 if ctx.quick else 6000}, timeout=3000)
     summ = json.load(open(os.path.join(out, "summary.json")))
     log("  driver: %d sequential histories, %d concurrent rounds, %d operations (%.1fs)" % (
         summ["histories"], summ["concurrent"], summ["ops"], r["wall_s"]))
